@@ -212,7 +212,7 @@ PROPS = {
         "timeout": 3000,
     },
     "C17": {
-        "lean_props": ["ZarrsModel.Props.C17", "ZarrsModel.Props.C17Shard"],
+        "lean_props": ["ZarrsModel.Props.C17", "ZarrsModel.Props.C17Shard", "ZarrsModel.Props.C17Oob"],
         "harness": "c17",
         "rule": "fixed-size configurations (all chains incl. nested sharding) at concurrency targets {1,2,4,16}: after a random history, the whole array, all chunks, cached and sharded-extension "
                 "reads and random multi-chunk regions are read with hook H4 recording every view write (allocation, offset, length) and every publish site; for EVERY published buffer the driver "
